@@ -1179,3 +1179,44 @@ def _dominates_if(f, a, b, pos, dom):
     ba = next((pos[x][0] for x in f.walk(f.nodes[a]["cond"]) if x in pos), None)
     bb = next((pos[x][0] for x in f.walk(f.nodes[b]["cond"]) if x in pos), None)
     return ba is not None and bb is not None and ba in dom[bb] and ba != bb
+
+
+# --------------------------------------------------------------------------
+# PR-1: the double-precision instantiations of the evaluation path keep every intermediate in double
+# --------------------------------------------------------------------------
+PR_EVAL = re.compile(r"^(ndsplineeval|bspl|bspline_)")
+
+
+def narrowings(f):
+    """nodes of f where a floating-point value is narrowed to float: a FloatingCast whose result is float, or a local of type float
+    (scalar or array) — in an instantiation whose working type is double either one rounds an intermediate to single precision"""
+    out = []
+    for i in f.walk():
+        nn = f.nodes[i]
+        if nn.get("cast") == "FloatingCast" and nn.get("t") == "float":
+            out.append((i, "value of type %s converted to float" % f.nodes[f.ch(i)[0]].get("t", "?")))
+        if nn["k"] == "DeclStmt":
+            for d in nn["decls"]:
+                if d.get("dk") == "Var" and re.search(r"(^|[^\w])float($|[^\w*]*$|\s*\[)", d.get("ctype", d.get("type", ""))) and "*" not in d.get("ctype", d.get("type", "")):
+                    out.append((i, "local `%s` of type %s" % (d.get("name", "?"), d.get("ctype", d.get("type", "")))))
+    return out
+
+
+def pr1(P, C, floor=40):
+    C.rule("PR-1", "working precision: in every function of the evaluation path instantiated for Float = double (kernels, cores, entry points of the "
+           "table and of evaluator_type<double>) no floating-point value is narrowed to float and no local of type float holds an intermediate; "
+           "the only float in such an instantiation is the stored coefficient, which is widened. Otherwise the double-precision result carries "
+           "single-precision rounding (1e-8 instead of 1e-16 relative), against 'rounding proportional to the working precision'", floor=floor)
+    n = 0
+    for f in sorted(P.functions.values(), key=lambda g: (g.file, g.line, g.qname)):
+        if f.unit != "driver" or not re.search(r"<double[,>]", f.qname):
+            continue
+        if not (PR_EVAL.match(f.name) or (f.name == "operator()" and "evaluator_type<double" in f.qname)):
+            continue
+        bad = narrowings(f)
+        n += 1
+        from . import ts
+        C.ob("PR-1", ts.fshort(f) if f.cls else f.qname.split("photospline::")[-1][:70], "no-narrowing", not bad, f.loc(bad[0][0]) if bad else f.where(),
+             "no conversion to float and no float local" if not bad else
+             "%s at %s: the double-precision instantiation rounds an intermediate to single precision" % (bad[0][1], f.loc(bad[0][0])))
+    return n
